@@ -27,6 +27,9 @@ def run(cx):
     vlib.write_ndjson(longp, [
         {"id": 0, "pieces": ["x := 0"] + ["x++"] * npieces + ["x"], "globals": ["x"]},
         {"id": 1, "pieces": ["x := 0"] + ["x + 1", "[][3]", "y := := 2"] * (npieces // 3) + ["x"], "globals": ["x"]},
+        # failures that strike while operands are pending (list literal, call arguments, range loop, switch)
+        {"id": 2, "pieces": ["x := 0"] + ["[1, 2, 3, 4, 5, 6, 7, 8, [][3]]", "print(1, 2, [][3])", "for _, v := range [1, 2] {\n[v, [][3]]\n}",
+                                          "switch 1 {\ncase 1:\n[4, [][3]]\n}", "x + 0"] * (npieces // 5) + ["x"], "globals": ["x"]},
     ])
     longo = cx.path("long.out.ndjson")
     cx.run([lang, "pieces", "-in", longp, "-out", longo], timeout=1200)
